@@ -176,6 +176,7 @@ SUBS = [
         nontrivial=nontrivial, classes=lambda c: sorted(set(c["prog"].get("classes", [])) & {"call", "polymorphic-call", "arity-changing-instantiation", "load-function", "function-called-twice"}), n_quick=80, n_thorough=600,
         sample_ok=lambda c: len(json.dumps(c)) < 3000),
     Sub("raw", check_hugr, strategy=c02.raw_strategy, nontrivial=nontrivial, classes=lambda c: sorted(facts(c) & {"delete-node", "static-edge", "order-edge-with-unconnected-port", "multi-link", "order-link"}), n_quick=200, n_thorough=1500),
+    Sub("order-ports", check_hugr, strategy=c02.order_strategy, nontrivial=nontrivial, classes=lambda c: sorted(facts(c) & {"delete-node", "order-link", "order-edge-with-unconnected-port"}), n_quick=150, n_thorough=1000),
     Sub("index-reuse", check_hugr, strategy=c02.reuse_strategy, nontrivial=nontrivial, classes=lambda c: sorted(facts(c) & {"delete-node", "order-link"}), n_quick=250, n_thorough=1500),
     Sub("packages", check_package, strategy=pkg_strategy, nontrivial=lambda c: bool(c["exts"]) or any(modgen.n_nodes(m) >= 4 for m in c["modules"]), n_quick=80, n_thorough=600),
 ]
